@@ -5,7 +5,7 @@ from fractions import Fraction as Fr
 import fol
 import streams
 from checks._folcommon import tabs_of
-from common import parse_q, sub_seed
+from common import parse_q, sub_seed, size
 
 THEOREMS = ["LNN.C11_qUp_forall", "LNN.C11_qUp_exists", "LNN.C11_forall_upper_unit", "LNN.C11_exists_lower_unit",
             "LNN.C11_fully_grounded", "LNN.C11_positives_never_prove", "LNN.C11_negatives_never_refute",
@@ -98,7 +98,7 @@ def expand_quant_ups(prog_rec_meta, prog):
 
 
 def run(rep, tier, seed):
-    n = 150 if tier == "quick" else 3000
+    n = size(tier, 150, 3000)
     progs = [p for p in (gen_program(seed, k) for k in range(n)) if p]
     # replace every model-level upward pass by explicit node-level calls in creation order, so that each quantifier call is judged
     for p in progs:
